@@ -611,6 +611,11 @@ func verifC11Batch(args []vsx) vsx {
 
 	returned := false
 	patience := verifC11Patience
+	if shrinking {
+		// candidates of a hanging case mostly hang too; the shrunk case is re-evaluated with the
+		// full watchdog afterwards (label "final"), so a short one here cannot produce a false report
+		patience = verifC11Patience / 4
+	}
 	if block {
 		patience += serverResponseTimeout
 	}
